@@ -162,7 +162,7 @@ impl<'a> Gen<'a> {
         if r == 1 {
             return el("contour", a, vec![]);
         }
-        if r == 2 {
+        if r == 2 || (self.ver == 1 && r >= 9) {
             // a single move point, named or not: an anchor in format 1
             let nm = if self.rng.chance(2, 3) { Some(self.name()) } else { None };
             let p = self.point(0, false, nm);
@@ -547,28 +547,13 @@ fn textless(n: &Node) -> bool {
     kids_of(n).iter().for_each(|c| texts_of(c, &mut t));
     t.iter().all(|s| blank(s))
 }
-fn f16_outline_child(n: &Node) -> bool {
-    matches!(n, Node::Empty(name, a) if name == "contour" && !a.is_empty())
-}
 fn f16_child(n: &Node) -> bool {
-    match n {
-        Node::Empty(name, a) => (name == "unicode" && !a.iter().any(|e| e.0 == "hex")) || (name == "outline" && !a.is_empty()),
-        Node::Elem(name, a, k) => {
-            (matches!(name.as_str(), "outline" | "lib" | "note") && !a.is_empty())
-                || (name == "note" && k.iter().any(|c| matches!(c, Node::Elem(..) | Node::Empty(..))))
-                || (name == "outline" && tview(k).iter().any(|c| f16_outline_child(c)))
-        }
-        _ => false,
-    }
+    matches!(n, Node::Elem(name, _, k) if name == "note" && k.iter().any(|c| matches!(c, Node::Elem(..) | Node::Empty(..))))
 }
 fn f16(doc: &[Node]) -> bool {
     match root_of(doc) {
         None => false,
-        Some(root) => {
-            let k = tview(kids_of(root));
-            let notes: Vec<&&Node> = k.iter().filter(|n| is_kind(n, "note")).collect();
-            k.iter().any(|n| f16_child(n)) || (notes.len() >= 2 && textless(notes[0]))
-        }
+        Some(root) => tview(kids_of(root)).iter().any(|n| f16_child(n)),
     }
 }
 fn f14_node(depth: u32, n: &Node) -> bool {
@@ -784,7 +769,7 @@ fn inject(doc: &mut Vec<Node>, g: &mut Gen, which: u64) -> Option<Label> {
             let i = g.rng.below(k.len() as u64 + 1) as usize;
             k.insert(i, text_el("note", "second"));
             k.insert(i, first);
-            lab("repeated note, first one without text", false, "F16")
+            lab("repeated note, first one without text", false, "")
         }
         // ---- identifiers
         8 => {
@@ -878,7 +863,7 @@ fn inject(doc: &mut Vec<Node>, g: &mut Gen, which: u64) -> Option<Label> {
         13 => {
             let p = ensure(doc, g, "unicode")?;
             del_attr(node_mut(doc, &p), "hex");
-            lab("unicode without hex", false, "F16")
+            lab("unicode without hex", false, "")
         }
         // ---- guidelines
         14 => {
@@ -947,7 +932,7 @@ fn inject(doc: &mut Vec<Node>, g: &mut Gen, which: u64) -> Option<Label> {
             let n = node_mut(doc, &p);
             let k = *g.rng.pick(&["bogus", "identifier", "name"]);
             set_attr(n, k, "1", g.rng);
-            lab(&format!("attribute on {}", kind), false, "F16")
+            lab(&format!("attribute on {}", kind), false, "")
         }
         // ---- lib
         19 => {
@@ -1078,9 +1063,6 @@ fn inject(doc: &mut Vec<Node>, g: &mut Gen, which: u64) -> Option<Label> {
             }
             let e = a[g.rng.below(a.len() as u64) as usize].clone();
             a.push(e);
-            if n.name() == Some("outline") || n.name() == Some("lib") || n.name() == Some("note") || (n.name() == Some("contour") && matches!(n, Node::Empty(_, _))) {
-                return None;
-            }
             lab("repeated attribute", false, "")
         }
         // ---- legal surface forms norad rejects (F14, F17)
@@ -1142,7 +1124,7 @@ fn inject(doc: &mut Vec<Node>, g: &mut Gen, which: u64) -> Option<Label> {
                 _ => (vec![at("identifier", "x"), at("identifier", "x")], false, "repeated attribute"),
             };
             insert_child(doc, &op, g.rng, em("contour", a));
-            lab(&format!("self-closing contour with {}", what), legal, if legal { "" } else { "F16" })
+            lab(&format!("self-closing contour with {}", what), legal, "")
         }
         39 => {
             // the identifier of a self-closing contour is not registered: a later duplicate passes
@@ -1155,7 +1137,7 @@ fn inject(doc: &mut Vec<Node>, g: &mut Gen, which: u64) -> Option<Label> {
             let kind = *g.rng.pick(&["anchor", "guideline", "component", "point"]);
             let p = ensure(doc, g, kind)?;
             set_attr(node_mut(doc, &p), "identifier", &id, g.rng);
-            lab(&format!("identifier of a self-closing contour repeated on {}", kind), false, "F16")
+            lab(&format!("identifier of a self-closing contour repeated on {}", kind), false, "")
         }
         40 => {
             if ver == 1 {
